@@ -258,7 +258,8 @@ pub fn candidates(p: &Position) -> Vec<Candidate> {
     // duplicate input inside one transaction
     v.push(Candidate { edit: "duplicate-input-in-tx".into(), tx: make_tx(&[o.clone(), o.clone()], &[(att.public, 2 * o.amount)], &att, ts, b"x"), tx2: None, control: false });
     // same input in two transactions of one block
-    v.push(Candidate { edit: "same-input-in-two-txs".into(), tx: pay(&o), tx2: Some(make_tx(&[o.clone()], &[(att.public, o.amount - 1)], &att, ts + 1, b"y")), control: false });
+    // (both fee-less, so that the block's totals stay right and only the double spend can be the reason)
+    v.push(Candidate { edit: "same-input-in-two-txs".into(), tx: pay(&o), tx2: Some(make_tx(&[o.clone()], &[(att.public, o.amount - 1), (key(2).public, 1)], &att, ts + 1, b"y")), control: false });
     // retagged Bound
     let mut bo = o.clone();
     bo.slip_type = SlipType::Bound;
@@ -397,9 +398,8 @@ fn attacker_block(w: &World, parent: usize, c: &Candidate, first: bool) -> Resul
         }
     }
     txs.push(c.tx.clone());
-    if let Some(t2) = &c.tx2 {
-        txs.push(t2.clone());
-    }
+    // the second transaction of a pair is inserted by hand below: an honest producer refuses to
+    // assemble two spenders of one output, an attacker signs whatever it likes
     if first {
         if let Some(h) = honest {
             txs.push(h);
@@ -423,6 +423,12 @@ fn attacker_block(w: &World, parent: usize, c: &Candidate, first: bool) -> Resul
         for (k, idx) in slots.iter().enumerate() {
             b.transactions[*idx] = desired[k].clone();
         }
+    }
+    if let Some(t2) = &c.tx2 {
+        let mut t2 = t2.clone();
+        t2.generate(&att.public, 0, 0);
+        let at = b.transactions.iter().position(|t| t.signature == c.tx.signature).map(|i| i + 1).unwrap_or(b.transactions.len());
+        b.transactions.insert(at, t2);
     }
     b.created_hashmap_of_slips_spent_this_block = true;
     b.merkle_root = b.generate_merkle_root(false, false);
